@@ -3,6 +3,7 @@
 -/
 import IoosQc.Wire
 import IoosQc.Props.C01C02
+import IoosQc.Props.C04
 
 open Lean IoosQc IoosQc.Wire
 
@@ -33,10 +34,31 @@ def handlePeriod (j : Json) : D Json := do
   let ts ← field j "t" >>= asList asInt
   pure (Json.mkObj [("values", Json.arr (ts.map fun t => toJson (periodOf p t)).toArray)])
 
+def asCell (j : Json) : D Cell := do
+  if j.isNull then pure .masked else
+  let n ← asInt j
+  match Flag.ofCode? n with
+  | some f => pure (.flag f)
+  | none => pure (.junk n)
+
+/-- kind = "agg": vectors of cells (flag codes, other integers, null = masked) and the
+    observation of `qartod_compare`. -/
+def handleAgg (j : Json) : D Json := do
+  let vs ← field j "vectors" >>= asList (asList asCell)
+  let o ← field j "obs" >>= asObs
+  let m := (qartodCompare vs).toObs
+  pure (Json.mkObj
+    [ ("in_dom", toJson (decide (0 < vs.length))),
+      ("holds", toJson (C04.holds vs o)),
+      ("model", obsToJson m),
+      ("model_eq", toJson (decide (m = o))),
+      ("spec", specToJson (C04.spec vs)) ])
+
 def dispatch (kind : String) (j : Json) : D Json :=
   match kind with
   | "test" => handleTest j
   | "period" => handlePeriod j
+  | "agg" => handleAgg j
   | k => throw s!"unknown kind {k}"
 
 end IoosQc.Handlers
